@@ -54,6 +54,37 @@ entries of every kind used below). -/
 example : (run (init 1000) demo).log.any
     (fun o => match o with | .spawn 1 8 sn => sn.live == 0 | _ => false) = true := by decide
 
+/-! ### the mechanism: cancel, then wait until the channel is closed -/
+
+/-- An execute instruction that arrives while an executor is current does not
+start anything yet: the executor's context is cancelled and the thread blocks
+in the drain loop; no goroutine has been spawned (`nextId` unchanged). -/
+theorem preempt_cancels_first (s : State) (ce : Bool) (ts : Nat) (d : Digest) (e : Exec)
+    (hpc : s.pc = .sync ce) (hc : s.cur = some e) :
+    ∃ s', reply s (.reply (some ts) (.execute (.ok d))) = some s' ∧ s'.pc = .drain (.start d) ∧
+      s'.cur = some { e with cancelled := true } ∧ s'.nextId = s.nextId := by
+  simp only [reply, hpc]
+  refine ⟨_, rfl, ?_, ?_, ?_⟩ <;> (split <;> simp [stopThen, touch, hc])
+
+/-- Likewise for an idle instruction. -/
+theorem idle_cancels_first (s : State) (ce : Bool) (ts : Nat) (e : Exec)
+    (hpc : s.pc = .sync ce) (hc : s.cur = some e) :
+    ∃ s', reply s (.reply (some ts) .idle) = some s' ∧ s'.pc = .drain .idle ∧
+      s'.cur = some { e with cancelled := true } ∧ s'.req = s.req := by
+  simp only [reply, hpc]
+  refine ⟨_, rfl, ?_, ?_, ?_⟩ <;> (split <;> simp [stopThen, touch, hc])
+
+/-- The drain loop of `stopExecution` cannot finish before the goroutine has
+closed the channel and everything it sent has been taken. -/
+theorem drain_waits_for_close (s : State) (k : DrainFor) (e : Exec) (hpc : s.pc = .drain k)
+    (hc : s.cur = some e) (h : e.closed = false ∨ e.buf ≠ []) : drainDone s = none := by
+  simp only [drainDone, hpc, hc]
+  rcases h with h | h
+  · simp [h]
+  · cases hb : e.buf with
+    | nil => exact absurd hb h
+    | cons m t => simp
+
 /-! ## honest state -/
 
 /-- Every request sent reports `Idle` only if no executor goroutine is alive;
